@@ -278,6 +278,60 @@ def key_of(callsl, g) -> dict:
     return {"clause": "call-differs-from-solo", "objects": objs[:2]}
 
 
+def warm_sweep(ctx: Ctx, rng: random.Random, key_of) -> int:
+    """The line-level sweep again, but after a HISTORY: the process has already handled W distinct
+    countries / keys (W = 16, 32, 64, 128 - the sizes bounded tables usually have), then thread A asks
+    about something seen before while thread B brings something new. What races here is the eviction or
+    re-organisation of a table that is full - unreachable from the cold state."""
+    import pycountry                      # input choice only: two-letter codes to build many distinct BICs
+    iso = sorted(c.alpha_2 for c in pycountry.countries if c.alpha_2 not in ("DE", "JP"))
+    env = ctx.frozen(banks=False)
+    rows = [r for r in ctx.table(env) if gen.row_classes(r) is not None and gen.cc_of(r) not in ("DE", "NO")]
+    import c12
+    keys = sorted({(e["cc"], e["code"]) for e in c12.raw_entries() if e["code"] and e["cc"] not in ("DE",)})
+    fresh_key = keys.pop()
+    A = [{"op": "bic.new", "t": cps("GENODEM1GLS"), "strict": False},
+         {"op": "bic.lookup", "cc": cps("DE"), "code": cps("43060967")},
+         {"op": "iban.bank", "t": cps("DE42430609677000534100")},
+         {"op": "iban.new", "t": cps("DE89370400440532013000"), "vb": True}]
+    B = [{"op": "bic.new", "t": cps("BOTKJPJT"), "strict": False},
+         {"op": "bic.lookup", "cc": cps(fresh_key[0]), "code": cps(fresh_key[1])},
+         {"op": "iban.new", "t": cps("NO9386011117947"), "vb": True}]
+    pairs = [(0, 0), (1, 0), (2, 0), (3, 2), (1, 1), (2, 1)]
+    solo = thr_jobs(ctx, [{"mode": "solo", "calls": A + B}], "warmsolo")[0]["solo"]
+    want = [canon(s["out"]) for s in solo]
+    counts = thr_jobs(ctx, [{"mode": "count", "calls": A + B}], "warmcnt")[0]["count"]
+    jobs, meta = [], []
+    for w in ((16, 32) if ctx.quick else (8, 16, 32, 64, 128)):
+        warm = [{"op": "bic.new", "t": cps("TEST" + cc + "22"), "strict": False} for cc in iso[:w - 1]]
+        warm.append(A[0])
+        warm += [{"op": "iban.new", "t": cps(gen.valid_iban(r, rng)), "vb": False} for r in rows[:w - 1]] + [A[3]]
+        warm += [{"op": "bic.lookup", "cc": cps(cc), "code": cps(code)} for cc, code in keys[:: max(1, len(keys) // w)][:w - 1]]
+        warm.append(A[1])
+        for ia, ib in pairs:
+            for first, other, n in ((1, 2, counts[ia]["lines"]), (2, 1, counts[len(A) + ib]["lines"])):
+                step = 1 if not ctx.quick or n <= 60 else 2
+                for k in range(0, n + 1, step):
+                    jobs.append({"mode": "lines", "calls": [A[ia], B[ib]], "warm": warm,
+                                 "turns": [[first, k], [other, 10 ** 6], [first, 10 ** 6]]})
+                    meta.append((ia, ib, w, k, first))
+    res = thr_jobs(ctx, jobs, "warmlines")
+    runs = 0
+    for (ia, ib, w, k, first), r in zip(meta, res):
+        if r["stuck"]:
+            continue
+        runs += 1
+        outs = [canon(o) for o in r["outs"]]
+        if outs != [want[ia], want[len(A) + ib]]:
+            ctx.violate("call-differs-from-solo", {"clause": "call-differs-from-solo", "granularity": "line",
+                                                   "after_history_of": w, "op": A[ia]["op"] + "+" + B[ib]["op"]},
+                        {"calls": [A[ia], B[ib]], "warm_distinct": w, "split": k, "first": first, "outs": outs,
+                         "solo": [want[ia], want[len(A) + ib]]})
+    ctx.evaluations += len(jobs)
+    ctx.coverage["line_level_runs_after_history"] = runs
+    return runs
+
+
 def run(ctx: Ctx) -> dict:
     if ctx.replay:
         raise MachineryError("replay for C14: the replay file holds calls and schedule; re-run ./check C14 quick")
@@ -402,6 +456,7 @@ def run(ctx: Ctx) -> dict:
             ctx.violate("call-differs-from-solo", dict(key_of(callsl, g), granularity="line"),
                         {"calls": [callsl[a], callsl[b]], "turns": turns, "outs": outs, "solo": want})
     ctx.evaluations += len(ljobs)
+    line_runs += warm_sweep(ctx, rng, key_of)
     n_racy = len(racy)
     ctx.samples = [{"calls": [callsl[i] for i in groups[0]["calls"]], "threads": groups[0]["threads"],
                     "schedule_replayed": meta[0][1]}]
